@@ -438,16 +438,17 @@ async def process_spawning_cause(
             cause=cause,
             excluded=memory.daemons_memory.forever_stopped,
         )
+        # Stop first, spawn next: those that have just finished stopping can be re-spawned at once.
+        matching_delays = await daemons.match_daemons(
+            settings=settings,
+            daemons=memory.daemons_memory.running_daemons,
+            handlers=handlers,
+        )
         spawning_delays = await daemons.spawn_daemons(
             settings=settings,
             daemons=memory.daemons_memory.running_daemons,
             cause=cause,
             memory=memory.daemons_memory,
-            handlers=handlers,
-        )
-        matching_delays = await daemons.match_daemons(
-            settings=settings,
-            daemons=memory.daemons_memory.running_daemons,
             handlers=handlers,
         )
         # Critical: strictly after spawning; see the docstring why.
